@@ -144,6 +144,22 @@ static void init(void) {
             }
         }
     }
+    /* S5: address-space layout.  The driver starts children with ASLR disabled
+     * (personality ADDR_NO_RANDOMIZE), so addresses are a function of (binary, argv, environment);
+     * SIMSEAM_HEAP_SKEW=<u64> then shifts the heap by a seeded number of leaked blocks, which makes
+     * the layout one more seeded dimension instead of an uncontrolled one. */
+    const char *sk = getenv("SIMSEAM_HEAP_SKEW");
+    if (sk && *sk) {
+        uint64_t st = strtoull(sk, NULL, 10);
+        if (st != 0) {
+            int n = (int)(splitmix64(&st) % 48);
+            for (int i = 0; i < n; i++) {
+                size_t sz = 16 + (size_t)(splitmix64(&st) % 8192);
+                volatile char *p = malloc(sz);
+                if (p) p[0] = 1; /* leaked on purpose */
+            }
+        }
+    }
     const char *lp = getenv("SIMSEAM_IO_LOG");
     if (lp && *lp && g_io_on) g_log_fd = open(lp, O_WRONLY | O_CREAT | O_APPEND | O_CLOEXEC, 0644);
 }
